@@ -145,3 +145,31 @@ func verifC04Rules() {
 		vAssert(n == 0, what+": nothing is forwarded to a backend")
 	}
 }
+
+// verifC04RetryRules: the same abort discipline for a retried hello (after an
+// accepted first hello and a HelloRetryRequest): every ill-formed variant of the
+// second hello makes Read fail with the matching class, sends the alert, closes
+// the transport and forwards nothing.
+func verifC04RetryRules() {
+	st, tr, c := vC06Setup()
+	hrr := vServerHello(vHRRRandom, st.first.outer.sid)
+	n, err := c.Write(hrr)
+	vAssert(err == nil && n == len(hrr), "HelloRetryRequest forwarded")
+	variant := vInt(1, 9)
+	rec, _, class, desc := vSecondHello(st, variant)
+	before := len(tr.out)
+	tr.in = append(tr.in, rec...)
+	buf := make([]byte, 600)
+	rn, rerr := c.Read(buf)
+	vReach("retry-ran")
+	vAssert(rn == 0, "ill-formed retried hello: nothing forwarded")
+	vAssert(rerr != nil && errors.Is(rerr, class), "ill-formed retried hello: error class")
+	vAssert(len(tr.out) == before+7, "ill-formed retried hello: exactly one alert record")
+	if len(tr.out) == before+7 {
+		al := tr.out[before:]
+		vAssert(al[0] == 0x15 && al[3] == 0 && al[4] == 2 && al[5] == 2 && al[6] == desc, "ill-formed retried hello: alert description")
+	}
+	vAssert(tr.closed, "ill-formed retried hello: end of stream after the alert")
+	rn2, rerr2 := c.Read(buf)
+	vAssert(rn2 == 0 && rerr2 != nil, "after the abort nothing is readable")
+}
